@@ -189,7 +189,7 @@ func init() {
 			}
 		}})
 
-	register(&Obligation{ID: "C06.b", Props: []string{"C06", "C07"}, Template: "sorted-precondition",
+	register(&Obligation{ID: "C06.b", Props: []string{"C06", "C07", "C01"}, Template: "sorted-precondition",
 		Desc: "recovery.LoadCheckpointList concatenates the levels of several instances' checkpoints; levels >= 1 are binary-searched by key (AllTablesForKey / AllTablesForPrefix), so they must be sorted by start key after the merge",
 		Run: func(r *Run) {
 			f := r.P.Func("dkv/recovery", "LoadCheckpointList")
@@ -266,7 +266,7 @@ func init() {
 			}
 		}})
 
-	register(&Obligation{ID: "C06.c", Props: []string{"C06"}, Template: "completeness-loop",
+	register(&Obligation{ID: "C06.c", Props: []string{"C06", "C01"}, Template: "completeness-loop",
 		Desc: "recovery.LoadCheckpointList reads the checkpoint of every handle (selected by the handle's id), merges the WAL handles and every level of every remaining document into the first, without skipping; a missing checkpoint id is a hard error",
 		Run: func(r *Run) {
 			f := r.P.Func("dkv/recovery", "LoadCheckpointList")
@@ -391,7 +391,7 @@ func init() {
 			}
 		}})
 
-	register(&Obligation{ID: "C06.d", Props: []string{"C06", "C08"}, Template: "monotone",
+	register(&Obligation{ID: "C06.d", Props: []string{"C06", "C08", "C01"}, Template: "monotone",
 		Desc: "sst.writeEntry keeps Table.endSeqNum as the maximum sequence number written (entries are key-ordered, not sequence-ordered), so LevelList.LatestSeqNum bounds every entry of the tables; NewLevelListOfTables / NewWithChangeSet take the maximum over tables",
 		Run: func(r *Run) {
 			f := r.P.Func("dkv/sst", "writeEntry")
